@@ -60,6 +60,7 @@ INDEXED = [
     Q("evaluate_deriv_basis[direct]", lambda b, e, t: evaluate_deriv_basis(
         b, _a(e, "points"), np.minimum(_a(e, "deriv_order", int), 2), transform=t, deriv_type="direct"), axes=(0,)),
     Q("overlap_integral", lambda b, e, t: overlap_integral(b, transform=t), axes=(0, 1)),
+    Q("overlap_integral[tol_screen]", lambda b, e, t: overlap_integral(b, transform=t, tol_screen=e.get("tol_screen", 1e-6)), axes=(0, 1)),
     Q("kinetic_energy_integral", lambda b, e, t: kinetic_energy_integral(b, transform=t), axes=(0, 1)),
     Q("momentum_integral", lambda b, e, t: momentum_integral(b, transform=t), axes=(0, 1)),
     Q("angular_momentum_integral", lambda b, e, t: angular_momentum_integral(b, transform=t), axes=(0, 1)),
@@ -123,7 +124,7 @@ def natural_scale(q, base, pf):
     and whole arrays that vanish by symmetry are compared at rounding level rather than relative to their own noise)."""
     t, ro, r0 = pf
     name = q.name
-    if name == "overlap_integral":
+    if name.startswith("overlap_integral"):
         return np.ones_like(base, dtype=float)
     if name == "kinetic_energy_integral":
         return 0.5 * t[:, None] * t[None, :]
